@@ -189,4 +189,28 @@ Theorem C10_file_bound_holds :
     (file_CB lvs) (file_span lvs).
 Proof. exact run_bounds_file. Qed.
 
+(* both phases, files WITH multi-line string literals: all final counters and all decision events agree under two settings, given the
+   bound for both phases' lengths and that the string stage marks the same lines for reflow under both settings (the hypothesis cannot
+   be dropped: a literal already indented for one setting is reflowed only under the other) *)
+From PasfmtVerif Require Import Model.WrapContexts Model.WrapSearch Model.WrapFormat Proofs.WrapSearchProofs Proofs.WrapWidthFree Proofs.WrapSimProofs Proofs.WrapUnconstrainedProofs Proofs.WrapWidthIndependence Proofs.WrapFileProofs Proofs.WrapNoBreakProofs Proofs.WrapTwoPhaseProofs.
+Theorem C10_file_counters_independent_both_phases_equal_reflow_sets :
+  forall (rsA rsB : rsettings) (WA WB : wsettings),
+  w_iter WA = w_iter WB ->
+  w_bbb WA = w_bbb WB ->
+  forall lines : list lline,
+  parents_ok lines = true ->
+  forall (l : list ftoken) (mA mB : N),
+  file_m (mk_lviews (map tokinfo_of l) lines) <= mA ->
+  file_m (mk_lviews (olf_infos2 rsA WA lines l) lines) <= mA ->
+  bound_m (mk_lviews (map tokinfo_of l) lines) mA (w_indw WA) (w_contw WA) <= w_max WA ->
+  file_m (mk_lviews (map tokinfo_of l) lines) <= mB ->
+  file_m (mk_lviews (olf_infos2 rsB WB lines l) lines) <= mB ->
+  bound_m (mk_lviews (map tokinfo_of l) lines) mB (w_indw WB) (w_contw WB) <= w_max WB ->
+  olf_reflow rsA WA lines l = olf_reflow rsB WB lines l ->
+  map snd (fst (fst (olf_model rsA WA true lines l))) =
+  map snd (fst (fst (olf_model rsB WB true lines l))) /\
+  map ev_erase (filter WrapEventsProofs.is_D (snd (fst (olf_model rsA WA true lines l)))) =
+  map ev_erase (filter WrapEventsProofs.is_D (snd (fst (olf_model rsB WB true lines l)))).
+Proof. exact olf_model_two_phase_indep. Qed.
+
 
